@@ -229,6 +229,15 @@ class AllCallables(GeneralCallables, MapCallables):
     pass
 
 
+# The names of the DSL constructors, keyed by lower-cased name:
+DSL_CALLABLE_NAMES = {
+    name.lower(): name
+    for klass in (GeneralCallables, MapCallables)
+    for name, attr in vars(klass).items()
+    if isinstance(attr, classmethod)
+}
+
+
 class ConditionLike:
     def __or__(self, other):
         return ConditionOr(self, other)
@@ -423,6 +432,8 @@ class ConditionLike:
 
             cond_call_str = spec_key_split[-1]
             cond_call_str = CALLABLE_LOOKUP.get(cond_call_str, cond_call_str)
+            # only DSL constructor names are callables (matched case-insensitively):
+            cond_call_str = DSL_CALLABLE_NAMES.get(cond_call_str, "")
             # special case:
             if cond_call_str in ["is_instance", "keys_is_instance"]:
                 try:
